@@ -54,7 +54,8 @@ def gen(rng, i):
                              {"t": "timeout", "T": 5000}])]
     return {"base": rng.choice(["manual", "pool", "pool"]) if not below else "pool", "workers": rng.choice([1, 2]),
             "layers": below + [{"t": "cos"}], "subs": subs,
-            "shutdown": {"at": at, "wait": rng.random() < 0.6, "repeat": rng.choice([1, 1, 2])}, "horizon": 2500}
+            "shutdown": {"at": at, "wait": rng.random() < 0.6, "repeat": rng.choice([1, 1, 2]),
+                         "cancel_futures": rng.choice([None, None, True, False])}, "horizon": 2500}
 
 
 def run(ck):
